@@ -82,6 +82,8 @@ QJsonObject to_json(const FPlan &p)
         o["sibling"] = QString::fromStdString(p.sibling);
     if (p.obstacle)
         o["obstacle"] = p.obstacle;
+    if (p.obstacle_gz)
+        o["obstacle_gz"] = true;
     if (p.tz_min)
         o["tz_min"] = p.tz_min;
     if (p.pre_bytes) {
@@ -121,6 +123,7 @@ bool from_json(const QJsonObject &o, FPlan &p)
         p.foreign.push_back(v.toInt());
     p.sibling = o["sibling"].toString().toStdString();
     p.obstacle = o["obstacle"].toInt();
+    p.obstacle_gz = o["obstacle_gz"].toBool();
     p.tz_min = o["tz_min"].toInt();
     p.pre_bytes = o["pre_bytes"].toInt();
     p.pre_age_days = o["pre_age_days"].toInt();
@@ -307,6 +310,8 @@ FPlan generate(const std::string &prop, const std::string &tier, uint64_t seed)
 
     if ((prop == "C05" || prop == "C10" || prop == "C06") && r.chance(1, 8))
         p.obstacle = (int)r.range(1, 3);
+    if (p.obstacle && (p.options & 4) && r.chance(1, 2))
+        p.obstacle_gz = true;
     {
         static const int tzs[] = { 0, 0, 0, 540, -300, 345, -720, 840 };
         p.tz_min = pick(r, tzs);
